@@ -15,7 +15,7 @@ open JanetModel.Loop
 theorem done_expr_match : Gen.Loop.doneTerms = doneSpec := by decide
 
 /-- every site that increments / decrements listener_count is one the model has a transition for (same guards) -/
-theorem counter_sites_match : Gen.Loop.counterSites = siteSpec := by decide
+theorem counter_sites_match : Gen.Loop.counterSites = siteSpec Gen.Loop.selfpipeDecNeedsCb := by decide
 
 /-- poll phase: entered and blocking under `tq_count || listener_count`; the stale-timeout drop loop has the shape modelled by
     `dropStale` -/
@@ -171,9 +171,14 @@ theorem step_inv (cfg : Cfg) {s s' : St} {e : Ev} (hi : Inv s) (h : step cfg s e
     simp only [step] at h
     by_cases h1 : s.postedNull = 0
     · rw [if_pos h1] at h; simp at h
-    · rw [if_neg h1] at h; simp at h; subst h
-      refine ⟨?_, hk, hr⟩
-      simp only [CounterInv]; omega
+    · rw [if_neg h1] at h
+      by_cases h2 : cfg.nullDec = true
+      · rw [if_pos h2] at h; simp at h; subst h
+        refine ⟨?_, hk, hr⟩
+        simp only [CounterInv]; omega
+      · rw [if_neg h2] at h; simp at h; subst h
+        refine ⟨?_, hk, hr⟩
+        simp only [CounterInv]; omega
   | tchanPend =>
     simp [step] at h; subst h
     refine ⟨hc, hk, ?_⟩
@@ -266,12 +271,60 @@ theorem loopDone_iff_idle (cfg : Cfg) (evs : List Ev) {s : St} (h : run cfg init
 
 /-- what the code really counts: an event posted with a NULL callback (`janet_loop1_interrupt`) is never un-counted by the
     POSIX self-pipe reader, so after it the loop can no longer finish although nothing is outstanding -/
-theorem null_event_keeps_loop_alive (cfg : Cfg) :
+theorem null_event_keeps_loop_alive (cfg : Cfg) (hcfg : cfg.nullDec = false) :
     ∃ s, run cfg init [.post true, .deliverNull] = some s ∧ Idle s ∧ loopDone s = false := by
   refine ⟨{ init with lc := 1, nullStuck := 1 }, ?_, ?_, ?_⟩
-  · simp [run, step, init]
+  · simp [run, step, init, hcfg]
   · simp [Idle, outstanding, init]
   · simp [loopDone, init]
+
+/-- when the self-pipe reader decrements for every event (`Gen.Loop.selfpipeDecNeedsCb = false`) no count is ever stuck … -/
+theorem nullStuck_zero (cfg : Cfg) (hcfg : cfg.nullDec = true) :
+    ∀ (evs : List Ev) {s s' : St}, s.nullStuck = 0 → run cfg s evs = some s' → s'.nullStuck = 0
+  | [], s, s', h0, h => by simp [run] at h; subst h; exact h0
+  | e :: es, s, s', h0, h => by
+    simp only [run] at h
+    cases hs : step cfg s e with
+    | none => rw [hs] at h; simp at h
+    | some s1 =>
+      rw [hs] at h
+      refine nullStuck_zero cfg hcfg es ?_ h
+      cases e <;> simp only [step] at hs
+      case deliverNull =>
+        by_cases h1 : s.postedNull = 0
+        · rw [if_pos h1] at hs; simp at hs
+        · rw [if_neg h1, if_pos hcfg] at hs; simp at hs; subst hs; exact h0
+      case deliverChan =>
+        by_cases h1 : s.posted = 0 ∨ s.tchanPending = 0
+        · rw [if_pos h1] at hs; simp at hs
+        · rw [if_neg h1] at hs
+          by_cases h2 : cfg.tchanUnroot = true
+          · rw [if_pos h2] at hs; simp at hs; subst hs; exact h0
+          · rw [if_neg h2] at hs; simp at hs; subst hs; exact h0
+      case pop f =>
+        by_cases h1 : f ∈ s.runq
+        · rw [if_pos h1] at hs
+          by_cases h2 : f ∈ s.susp
+          · rw [if_pos h2] at hs; simp at hs; subst hs; exact h0
+          · rw [if_neg h2] at hs; simp at hs; subst hs; exact h0
+        · rw [if_neg h1] at hs; simp at hs
+      case ran f b =>
+        cases b
+        · simp at hs; subst hs; exact h0
+        · by_cases h2 : f ∈ s.susp
+          · simp [h2] at hs
+          · simp [h2] at hs; subst hs; exact h0
+      case post b => cases b <;> (simp at hs; subst hs; exact h0)
+      all_goals first
+        | (simp at hs; subst hs; exact h0)
+        | (split at hs <;> simp at hs; subst hs; exact h0)
+
+/-- ★ … and the loop is done exactly when the program is idle: no hang, no premature exit, no side condition -/
+theorem loopDone_iff_idle_fixed (cfg : Cfg) (hcfg : cfg.nullDec = true) (evs : List Ev) {s : St}
+    (h : run cfg init evs = some s) : loopDone s = true ↔ Idle s := by
+  have hn := nullStuck_zero cfg hcfg evs (s := init) rfl h
+  rw [loopDone_iff_idle cfg evs h]
+  exact ⟨fun x => x.1, fun x => ⟨x, hn⟩⟩
 
 /-- a suspended task that is garbage collected (deadlocked on an unreachable channel) keeps its count for ever: the collector
     only undoes the count of fibers with `ev_state` -/
@@ -364,6 +417,13 @@ theorem tchanLeaked_zero (cfg : Cfg) (hcfg : cfg.tchanUnroot = true) :
         by_cases h1 : s.posted = 0 ∨ s.tchanPending = 0
         · rw [if_pos h1] at hs; simp at hs
         · rw [if_neg h1, if_pos hcfg] at hs; simp at hs; subst hs; exact h0
+      case deliverNull =>
+        by_cases h1 : s.postedNull = 0
+        · rw [if_pos h1] at hs; simp at hs
+        · rw [if_neg h1] at hs
+          by_cases h2 : cfg.nullDec = true
+          · rw [if_pos h2] at hs; simp at hs; subst hs; exact h0
+          · rw [if_neg h2] at hs; simp at hs; subst hs; exact h0
       case pop f =>
         by_cases h1 : f ∈ s.runq
         · rw [if_pos h1] at hs
